@@ -75,6 +75,7 @@ class Recorder:
         self.refusals = {}
         self.floors = {}
         self.cur = None             # (group, i)
+        self.context = None         # free-text context of the code under test (e.g. pytest node id), copied into violations
         self._pfd = None
         p = os.environ.get('VF_PROGRESS')
         if p:
@@ -127,6 +128,7 @@ class Recorder:
                 'tier': self.tier, 'flavour': self.flavour,
                 'group': self.cur[0] if self.cur else None,
                 'case': self.cur[1] if self.cur else None,
+                'context': self.context,
                 'detail': js(detail)})
 
     def check(self, ok, clause, key=None, **detail):
